@@ -1,0 +1,14 @@
+//go:build verif
+
+package button
+
+// Contracts for contract-based deductive verification (read by /verif/govc). Comment-only.
+
+/*@
+-- Button = Center(Text): by composition of their contracts (C14)
+func (b *Button) Draw(ctx vxfw.DrawContext) (vxfw.Surface, error)
+  panics when ctx.Max.Height == 65535 || ctx.Max.Width == 65535
+  requires chars: ref(ctx.Characters) != 0
+  ensures C14_max: result1 == nil ==> (result0.Size.Width <= ctx.Max.Width && result0.Size.Height <= ctx.Max.Height)
+  ensures C14_buf: result1 == nil ==> len(result0.Buffer) == int(result0.Size.Width) * int(result0.Size.Height)
+@*/
